@@ -19,6 +19,7 @@ def check(cx):
         'R4.4 rank flag <-> rank set sibling agreement over the ten add_*/remove_* methods, add_user, remove_user, ChannelModes::rename_user',
         'R4.5 PART is announced to all members including the departing one before the removal, exactly for accepted parts; 442/403 otherwise',
         'R4.6 NAMES / WHO <channel> / WHOIS(319) read membership only from Channel.users and User.channels',
+        'R4.7 JOIN echo/announcement and KICK lines are sent under exactly the condition of the membership change they report (relative to the handler\'s own decision); NICK re-key/announcement and disconnect clean-up imported from C15 R15.2/R15.3 and C06 R6.3/R6.5',
     ]
     ck.does_not_decide += ['that a concrete announcement-derived roster equals a NAMES snapshot for a concrete history (behavioural consequence of R4.1-R4.5)']
     prog = cx.prog
@@ -45,6 +46,17 @@ def check(cx):
                     r1.violation('%s|writes-User.channels|%s' % (b, e.data['name']), 'a user\'s channel set is changed (%s) in %s'
                                  % (e.data['name'], b), loc=cx.loc(e.node))
     rule_membership_funnel(cx, r1)
+
+    # ---------------------------------------------------------------- R4.7 imported
+    r7 = cx.rule('R4.7', 'membership changes of JOIN / KICK / NICK / disconnect', floor=8, kind='dependency')
+    from .C07 import rule_join_relative
+    from .C09 import rule_kick_relative
+    rule_join_relative(cx, r7)
+    rule_kick_relative(cx, r7)
+    depends(cx, r7, 'C15', ('R15.2', 'R15.3'), 'NICK re-keys every membership and is announced',
+            only=r'rekey\|(member-entries|Channel)|announcement')
+    depends(cx, r7, 'C06', ('R6.3', 'R6.5'), 'a disconnect removes the user from every roster and nobody else',
+            only=r'(not-cleaned|conditional-clean)\|Channel|foreign-effect|no-registry-removal')
 
     # ---------------------------------------------------------------- R4.2
     r2 = cx.rule('R4.2', 'both sides written together', floor=3, kind='pairing')
@@ -221,7 +233,7 @@ def check(cx):
                      'member map', loc=fi)
 
 
-def rule_membership_funnel(cx, rule):
+def rule_membership_funnel(cx, rule, only=None):
     """every departure / arrival goes through the one function that keeps both sides (and channel deletion) together
        (shared: C04 R4.1, C16 R16.2)"""
     census = cx_census(cx)
@@ -239,6 +251,8 @@ def rule_membership_funnel(cx, rule):
                 if e.data['callee'].endswith(k):
                     seen[k].add(base_fn(fn))
     for k, want in want_callers.items():
+        if only is not None and k.split('::')[-1] not in only:
+            continue
         rule.instance('%s callers: %s' % (k.split('::', 1)[1], ','.join(sorted(seen[k]))))
         for extra in sorted(seen[k] - want):
             rule.violation('%s|calls|%s' % (extra, k.split('::')[-1]), '%s is called from %s' % (k, extra), loc=extra)
